@@ -9,4 +9,13 @@ CHECKS = {
              "with an unaligned record length and >=1 row, distinct by (schema, rows, data hash)",
         assumptions=["round trip compared byte for byte with the harness's own little-endian encoder"],
     ),
+    "C08": dict(
+        test="TestC08", level="exploration", shards=16,
+        tiers=dict(quick=dict(checks=40, timeout=600), thorough=dict(checks=2500, timeout=3000)),
+        rule="rapid histories of 1-8 write requests (1-300 rows, unsorted, repeated slots, 1-3 years incl. first/last "
+             "slot of a year and leap day, all on-disk timeframes, 1-5 columns over all wire types) against an "
+             "in-memory last-writer-wins model, checked after every request; non-trivial = >=1 overwritten slot and "
+             ">=2 year files, distinct by (timeframe, schema, final model state)",
+        assumptions=["system and configured time zone UTC", "model slot arithmetic: floor(epoch/tf)*tf"],
+    ),
 }
